@@ -819,7 +819,8 @@ def run(tier, replay=None):
               'UDFs; C: every built-in on all arguments of its small domain through the real pipeline; D: every aggregating '
               'operator on every arrival order of every value multiset over {0,1,2} up to the tier\'s size; non-trivial = at '
               'least one row / argument',
-      'exhaustive': 'within the stated small domains',
+      'exhaustive': True,
+      'exhaustive_note': 'within the stated small domains',
       'by_stream': dict((k, {'exact': v[0], 'spec_only': v[1], 'violating': v[2]}) for k, v in counts.items()),
       'stats': stats,
       'skipped': skipped,
